@@ -97,6 +97,7 @@ func runC13(c *Ctx) {
 		if splicedEverywhere(p, pkg, fd) {
 			continue // a shared notification helper: judged inside every writer it is spliced into
 		}
+		var lhF func(Point) LockSet
 		for _, pt := range f.Find(func(n ast.Node) bool {
 			_, isInv := isInvokeUse(n)
 			return isInv
@@ -188,13 +189,13 @@ func runC13(c *Ctx) {
 					}
 					return true
 				})
-				// an Invoke inside an expanded helper runs under whatever the analysed function
-				// holds at the (outermost) helper call
+				// an Invoke inside an expanded helper: the locks held there on the spliced graph (those
+				// of the analysed function at the call plus what the helper itself took)
 				if reg := f.regionOf[pt.B]; reg != nil {
-					for reg.parent != nil {
-						reg = reg.parent
+					if lhF == nil {
+						lhF = f.LocksHeld(LockSet{})
 					}
-					heldHere = heldAt[reg.call]
+					heldHere = lhF(pt)
 				}
 				for k, m := range heldHere {
 					if m == ModeW && (strings.HasSuffix(k, ".updateOrderMutex") || strings.HasSuffix(k, ".mutex")) && !strings.Contains(k, "readableSet") {
@@ -222,17 +223,7 @@ func runC13(c *Ctx) {
 			r.Unresolved("writer/one-order-section", key, "method not found")
 			continue
 		}
-		checkSingleSectionNamed(r, p, pkg, fd, "writer/one-order-section")
-		n := 0
-		ast.Inspect(fd.Body, func(nd ast.Node) bool {
-			if cl, ok := nd.(*ast.CallExpr); ok && selectorCall(info, cl, "", row.helper) {
-				n++
-			}
-			return true
-		})
-		if n != 1 {
-			r.Fail("writer/one-order-section", key+" helper", p.posStr(fd.Pos()), fmt.Sprintf("expected exactly one call of %s, found %d", row.helper, n))
-		}
+		checkOneOrderSection(r, p, pkg, fd, row.helper, "writer/one-order-section")
 	}
 	// all writers of one reactive value serialise on the SAME update-order mutex: the field object the
 	// Lock call selects (through embedding) must be identical - a field of the same name declared on an
@@ -252,7 +243,16 @@ func runC13(c *Ctx) {
 				continue
 			}
 			var lockField *types.Var
-			ast.Inspect(fd.Body, func(nd ast.Node) bool {
+			// (on the writer with its unexported helpers in place: the section may live in a body it
+			// shares with another writer)
+			wf := newFuncCFG(p, info, fd.Body, pkg+"."+m[0]+"."+m[1]+"/lock-field")
+			var wnodes []ast.Node
+			for _, b := range wf.G.Blocks {
+				if b.Live {
+					wnodes = append(wnodes, b.Nodes...)
+				}
+			}
+			visit := func(nd ast.Node) bool {
 				if lockField != nil {
 					return false
 				}
@@ -272,7 +272,10 @@ func runC13(c *Ctx) {
 					}
 				}
 				return true
-			})
+			}
+			for _, nd := range wnodes {
+				inspectNoLit(nd, visit)
+			}
 			if lockField == nil {
 				continue
 			}
@@ -878,5 +881,83 @@ func checkLockExecutionContract(r *Reporter, p *Prog) {
 		} else {
 			r.Fail("cb/lock-execution-contract", pkg+".callback.MarkUnsubscribed", p.posStr(fdm.Pos()), "MarkUnsubscribed must set the unsubscribed flag")
 		}
+	}
+}
+
+// checkOneOrderSection: in a writer (judged with its unexported helpers in place, so that a body shared
+// by several writers counts for each of them) the value change and the notification of the
+// subscribers happen in ONE exclusive section of the update-order mutex: exactly one call of the
+// change helper, made with the mutex held exclusively; every notification that can follow it holds
+// the mutex too; and the mutex is not taken again in between (the section is not split in two).
+func checkOneOrderSection(r *Reporter, p *Prog, pkg string, fd *ast.FuncDecl, helper, rule string) {
+	info := p.Pkg(pkg).TypesInfo
+	fkey := funcKey(pkg, fd)
+	f := newFuncCFG(p, info, fd.Body, fkey+"/order-section")
+	calls := f.Calls(func(c *ast.CallExpr) bool { return selectorCall(info, c, "", helper) })
+	if len(calls) != 1 {
+		r.Fail(rule, fkey+" helper", p.posStr(fd.Pos()), fmt.Sprintf("expected exactly one call of %s, found %d", helper, len(calls)))
+		return
+	}
+	cpt, _ := f.PointOf(calls[0])
+	lh := f.LocksHeld(LockSet{})
+	isOrder := func(k string) bool {
+		return (strings.HasSuffix(k, ".updateOrderMutex") || strings.HasSuffix(k, ".mutex")) && !strings.Contains(k, "readableSet") && !strings.Contains(k, "readableVariable")
+	}
+	order := ""
+	for k, m := range lh(cpt) {
+		if m == ModeW && isOrder(k) {
+			order = k
+		}
+	}
+	if order == "" {
+		r.Fail(rule, fkey, p.posStr(calls[0].Pos()), fmt.Sprintf("the value is changed without holding the update-order mutex exclusively (held: %s): the steps are no longer one atomic section", lh(cpt)))
+		return
+	}
+	var bad []string
+	nInv := 0
+	after := Point{cpt.B, cpt.I + 1}
+	for _, b := range f.G.Blocks {
+		if !b.Live {
+			continue
+		}
+		for i, nd := range b.Nodes {
+			pt := Point{b, i}
+			isInv, isLock := false, false
+			inspectNoLit(nd, func(m ast.Node) bool {
+				switch x := m.(type) {
+				case *ast.SelectorExpr:
+					if x.Sel.Name == "Invoke" && shortTypeName(typeName(info.TypeOf(x.X))) == "callback" {
+						isInv = true
+					}
+				case *ast.CallExpr:
+					if op, path := lockOp(info, x); op == "Lock" || op == "RLock" {
+						if f.MapPath(path, pt) == order {
+							isLock = true
+						}
+					}
+				}
+				return true
+			})
+			if !isInv && !isLock {
+				continue
+			}
+			if _, reachable := f.reach(after, nil, func(q Point, atExit bool) bool { return !atExit && f.At(q, pt) }); !reachable {
+				continue
+			}
+			if isLock {
+				bad = append(bad, p.posStr(nd.Pos())+": the update-order mutex is taken again after the value was changed: the change and the notification are two sections")
+			}
+			if isInv {
+				nInv++
+				if lh(pt)[order] != ModeW {
+					bad = append(bad, fmt.Sprintf("%s: subscribers are notified without the update-order mutex that was held when the value was changed (held: %s)", p.posStr(nd.Pos()), lh(pt)))
+				}
+			}
+		}
+	}
+	if len(bad) > 0 {
+		r.Fail(rule, fkey, p.posStr(fd.Pos()), bad[0], bad...)
+	} else {
+		r.Pass(rule, fkey, p.posStr(fd.Pos()), fmt.Sprintf("one exclusive section of %s covers the change and %d notification site(s)", displayPath(order), nInv))
 	}
 }
